@@ -156,11 +156,15 @@ inductive Outcome where
   | refuse                 -- documented ValueError raised by the setter itself
   | internal               -- the code fails with an error that is not a documented refusal
   | off                    -- the code returns a graph outside the canonical family
+  | internalOrOk (s : FV)  -- inside a defect class: fails or returns this state, depending on statement-level
+                           -- details (which symbols a removed definition used) the feature vector abstracts from
+  | internalOrOff
   deriving DecidableEq, Repr, Inhabited
 
 /-- `set_transit_compartments(n, keep_depot)` on the feature vector, as the code behaves. -/
 def setTransits (s : FV) (n : Nat) (keep : Bool) : Outcome :=
   -- `model = remove_lag_time(model)` comes first, unconditionally
+  let hadLag := s.lag
   let s := { s with lag := false }
   if !keep && s.depot then
     -- MAT is renamed to MDT although MDT already exists (transits or zero-order duration)
@@ -174,12 +178,20 @@ def setTransits (s : FV) (n : Nat) (keep : Bool) : Outcome :=
   else
     if s.transits = n then .ok s
     else if n = 1 ∧ s.abs = .inst then .refuse
+    else if hadLag ∧ n ≠ 0 then
+      -- the new graph is built from the ODE system fetched *before* remove_lag_time: the lag time
+      -- stays behind on the old dosing compartment
+      if s.transits = 0 then .off                         -- … which is no longer the dosing compartment
+      else if n = 1 ∧ s.depot = false then .internalOrOff
+      else .internalOrOk { s with transits := n, lag := true }   -- … TRANSIT1 keeps a lag time whose definition is gone
+    else if n = 1 ∧ s.depot = false then
+      -- one transit straight into central: the detectors call it a depot, but it is named TRANSIT1 and
+      -- later transit requests collide with it
+      .off
     else if n = 0 then
       -- all transits removed: the dose moves on, its bioavailability does not
       .ok { s with transits := 0, bio := false }
-    else
-      let (n', d') := FV.normChain n s.depot
-      .ok { s with transits := n', depot := d' }
+    else .ok { s with transits := n }
 
 def setAbs (s : FV) (a : Abs) : Outcome :=
   match a with
@@ -214,7 +226,10 @@ def setAbs (s : FV) (a : Abs) : Outcome :=
       else if s.depot then .internal
       else .ok s                                                          -- nothing happens
     | .seq =>
-      if s.depot then .internal
+      if s.depot then
+        -- the second half works on the stale ODE system: the depot comes back with a bolus dose, or the
+        -- statements still mention the random effect of the removed MAT
+        if s.transits = 0 then .internalOrOk { s with zo := false } else .internal
       else .ok { s with zo := false }                                     -- only the infusion becomes a bolus
 
 /-- The setters on the feature vector, as the code behaves. -/
@@ -239,7 +254,7 @@ def achieves (r : Req) (s s' : FV) : Bool :=
   | .periph k => s'.periph = k
   | .periphAdd => s'.periph = s.periph + 1
   | .periphRemove => s'.periph = s.periph - 1
-  | .transits n keep => (s'.transits, s'.depot) = FV.normChain n (keep && s.depot)
+  | .transits n keep => s'.transits = n && s'.depot = (keep && s.depot)
   | .lag on => s'.lag = on
   | .bio on => s'.bio = on
 
@@ -272,11 +287,11 @@ def frame (r : Req) (s s' : FV) : Bool :=
     s'.zo = s.zo && s'.transits = s.transits && s'.depot = s.depot && s'.elim = s.elim
     && s'.periph = s.periph && s'.lag = s.lag
 
-/-- The only documented refusal of these setters on a structural PK model:
-    one transit compartment on a model whose absorption would be instantaneous. -/
+/-- The only documented refusal of these setters on a structural PK model: one transit compartment
+    without a depot behind it ("cannot be distinguished from first order absorption"). -/
 def mayRefuse (r : Req) (s : FV) : Bool :=
   match r with
-  | .transits n keep => n = 1 && !(keep && s.depot) && !s.zo && s.transits = 0
+  | .transits n keep => n = 1 && !(keep && s.depot)
   | _ => false
 
 def Allowed (r : Req) (s : FV) : Outcome → Bool
@@ -284,13 +299,16 @@ def Allowed (r : Req) (s : FV) : Outcome → Bool
   | .refuse => mayRefuse r s
   | .internal => false
   | .off => false
+  | .internalOrOk _ => false
+  | .internalOrOff => false
 
 /-- Witness classes of the defects of the code (the negation is the side-condition of the
     `_partial` theorems).  Each is a decidable description of (request, state before). -/
 inductive DefectClass where
+  | transitsStaleLag       -- set_transit_compartments on a model with lag time rebuilds from the stale ODE system
   | transitsDropBio        -- set_transit_compartments(0) / keep_depot=False loses the bioavailability
   | nodepotRenameClash     -- keep_depot=False with depot while MDT exists: "Parameter names must be unique"
-  | transit1OnZeroOrder    -- n=1 on zero-order absorption without chain: not refused, result is a depot
+  | singleTransitNoDepot   -- n=1 without depot on a non-instantaneous model: not refused; TRANSIT1 acts as depot
   | foOnSeqTransits        -- set_first_order_absorption on seq + transits: nothing / DEPOT in front
   | foOnSeqDropsLag        -- set_first_order_absorption on seq (depot doses) sets the lag time to 0
   | zoOnTransits           -- set_zero_order_absorption with transits: dangling chain / stays sequential
@@ -309,7 +327,9 @@ def defectOf (r : Req) (s : FV) : Option DefectClass :=
       else if s.bio && n ≠ 1 then some .transitsDropBio
       else none
     else if s.transits = n then none
-    else if n = 1 ∧ s.abs = .zo then some .transit1OnZeroOrder
+    else if n = 1 ∧ s.abs = .inst then none
+    else if s.lag ∧ n ≠ 0 then some .transitsStaleLag
+    else if n = 1 ∧ s.depot = false then some .singleTransitNoDepot
     else if n = 0 ∧ s.bio then some .transitsDropBio
     else none
   | .abs .fo =>
@@ -329,6 +349,20 @@ def defectOf (r : Req) (s : FV) : Option DefectClass :=
     else if s.abs = .fo ∧ s.bio then some .instDropsBio
     else none
   | _ => none
+
+/-- The request adds structure that the state before does not have (so that undoing it is meaningful:
+    "undoing a feature restores a model equivalent to the one before it was added"). -/
+def additive (r : Req) (s : FV) : Bool :=
+  match r with
+  | .abs a =>
+    (s.abs = .inst && a ≠ .inst) || (s.abs = .zo && a = .seq) || (s.abs = .fo && a = .seq)
+  | .elim e => (s.elim = .fo && e ≠ .fo) || ((s.elim = .mm || s.elim = .zo) && e = .mix)
+  | .periph k => s.periph < k
+  | .periphAdd => true
+  | .periphRemove => false
+  | .transits n keep => s.transits < n && (keep || !s.depot)
+  | .lag on => on && !s.lag
+  | .bio on => on && !s.bio
 
 /-- Undo request of a request, given the state before. -/
 def undo (r : Req) (s : FV) : Req :=
